@@ -13,7 +13,7 @@ RULE = ("union of complete products: S1 single column = kind (mc/alphabets kinds
         "63,64,65 in the uncompressed cells) x "
         "has_nulls x stats; S2 two columns + index + splitting = ordered pairs of 12 core kinds x index program x "
         "row_group_offsets x file_scheme x page version x n; S3 options = times (x page version x tiny pages), "
-        "object_encoding (str and per-column dict), fixed_text, per-column compression dict, 12 / 13 / 26 row groups x {simple, hive, drill} x write_index, sizes 8191/8192/8193 "
+        "object_encoding (str and per-column dict), fixed_text, per-column compression dict, a categorical without labels (all missing) x n x ordered x simple / hive x page version x codec, 12 / 13 / 26 row groups x {simple, hive, drill} x write_index, sizes 8191/8192/8193 "
         "(+ 40000-label categorical with int32 codes), 'wide' = one 15-column frame with interleaved dtypes and "
         "unsorted / dotted / non-ASCII names x row_group_offsets (None, list; ints 1,3,4,9,100,0 with n = 9 and 10) x "
         "file_scheme x page version x tiny pages x index (range, int labels) x has_nulls (True; a partial list "
@@ -73,6 +73,7 @@ def points(tier):
     pts.append({"s": "S3", "opt": "fixed_text"})
     pts.append({"s": "S3", "opt": "compdict"})
     pts.append({"s": "S3", "opt": "many_rg"})
+    pts.append({"s": "S3", "opt": "cat_nolabels"})
     for kind in ("bool", "int64", "float64", "str_obj", "cat_str", "Int64", "cat_wide", "cat_wide32"):
         for n in (8191, 8192, 8193):
             if tier != "thorough" and n != 8192 and kind not in ("bool", "str_obj"):
@@ -474,6 +475,22 @@ def run_S3(c, p):
                 with wr.PageCfg(ver, None):
                     roundtrip(c, df, {"a": "int64", "b": "str_obj", "c": "float64", "d": "cat_str"},
                               "S3 compression dict %r v%d" % (comp, ver), compression=comp)
+    elif opt == "cat_nolabels":
+        # a categorical that declares no label at all (every value missing): its dictionary page is empty
+        for n in (1, 2, 9):
+            for ordered in (False, True):
+                df = pd.DataFrame({"a": A.series("int64", n, "none", 0, "a"),
+                                   "c": pd.Series(pd.Categorical([None] * n, categories=[], ordered=ordered))})
+                for scheme in ("simple", "hive"):
+                    for rgo in ((None, [0, 1]) if n > 1 else (None,)):
+                        for ver in (1, 2):
+                            for comp in (None, "SNAPPY"):
+                                c.ctx = {"scheme": scheme, "v": ver, "rgs": 1 if rgo is None else 2, "comp": comp}
+                                what = "S3 categorical without labels n=%d ordered=%s %s rgo=%r v%d %s" % (
+                                    n, ordered, scheme, rgo, ver, comp)
+                                with wr.PageCfg(ver, None):
+                                    roundtrip(c, df, {"a": "int64", "c": "cat_str"}, what, path_kind=scheme,
+                                              row_group_offsets=rgo, write_index=False, compression=comp)
     elif opt == "many_rg":
         # more row groups / part files than one decimal digit counts (part.10 sorts before part.2 as text)
         n = 26
